@@ -7,6 +7,8 @@ pub mod program;
 pub mod push_io;
 pub mod push_state;
 pub mod stack;
+#[cfg(unhindered_ec_verif)]
+pub mod verif_alt_state;
 
 pub use self::stack::HasStack;
 
